@@ -115,6 +115,8 @@ class T:
                     o = Opaque(EL(base, kt), elem.kw["cls"], exact=elem.kw["exact"])
                     if elem.kw["exact"]:
                         ip.path.assume(ip.schema.kinds.is_kind(o.ref, elem.kw["cls"]))
+                        if elem.kw["cls"] in ip.schema.kinds.const:
+                            ip.schema.learn_kind(ip, o.ref, elem.kw["cls"])
                     ip.schema.touch(ip, o)
                     return o
             elif elem.tag == "real":
